@@ -29,9 +29,7 @@ Qed.
 Theorem C13_ok_gen m src inc o out_ :
   wf m = true -> pc_size_agrees m = true -> gen m src inc o = Ok out_ -> C13_ok m out_ = true.
 Proof.
-  unfold wf. intros Hwf Hsize Hgen.
-  apply andb_true_iff in Hwf as [Hwf Hnames]. apply andb_true_iff in Hwf as [Hwf _].
-  apply andb_true_iff in Hwf as [Htypes Hcalls].
+  intros Hwf Hsize Hgen. destruct (wf_proj m Hwf) as (Htypes & Hcalls & _ & Hnames & _).
   destruct (gen_inv _ _ _ _ _ Hgen) as [bgd pc _ _ _ _ _ _ _ _ _ _ _ _ Hpc Hpcs _ Hranges _].
   unfold C13_ok, pc_size_agrees in *. pose proof (find_pc_from_spec (globals m) 0) as Hpcf.
   unfold push_constant_range_stages in Hpc.
